@@ -28,14 +28,16 @@ Definition leaves_fs (pre : str) (fs : list (str * str * schema)) : list (str * 
 Lemma leaves_node pre m fs : leaves pre (Node m fs) = leaves_fs pre fs.
 Proof. simpl. induction fs as [|[[g tag] c] r IH]; simpl; auto. now rewrite IH. Qed.
 
-Definition flat_field (f : str * str * schema) : list str :=
-  match f with
+Definition flat_field (f : facts) (x : str * str * schema) : list str :=
+  match x with
   | (_, tag, Leaf _ _ _) => [upper tag]
-  | (_, tag, c) => map (fun k => upper (tag ++ [USC] ++ k)) (flat c)
+  | (_, tag, c) => map (fun k => upper (tag ++ [USC] ++ k)) (flat f c)
   end.
-Lemma flat_node m fs : flat (Node m fs) = flat_map flat_field fs.
+(* with the expected facts of flattenDefaultsMap: upper case on both branches, "_" between the levels *)
+Lemma flat_node f m fs : nf f = expected_nf -> flat f (Node m fs) = flat_map (flat_field f) fs.
 Proof.
-  simpl. induction fs as [|[[g tag] c] r IH]; simpl; auto. rewrite IH. destruct c; reflexivity.
+  intros HN. simpl. rewrite HN. simpl.
+  induction fs as [|[[g tag] c] r IH]; simpl; auto. rewrite IH. destruct c; reflexivity.
 Qed.
 
 (* ---------- characters ---------- *)
@@ -79,24 +81,35 @@ Proof. unfold repl. rewrite map_map. apply map_ext. intros c.
   - apply Z.eqb_eq in E. subst. reflexivity.
   - destruct (c =? DOT); reflexivity. Qed.
 
-(* ---------- BindFlagToEnv's variable = AutomaticEnv's variable ---------- *)
-Lemma short_of_key k prefix : lower k = k -> has_prefix k (lower prefix) = false -> short_of k prefix = k.
-Proof. unfold short_of. intros -> ->. reflexivity. Qed.
-
-Lemma bound_env_is_auto_env_l w k ev :
-  flagkey_of_short (short_of ev (w_prefix w)) = flagkey fixed (w_prefix w) k ->
-  cleanse fixed (w_prefix w) (short_of ev (w_prefix w)) = autoenv (w_prefix w) k.
+(* ---------- the expected spelling facts give the functions their familiar form ---------- *)
+Lemma autoenv_expected f prefix k : kf f = expected_kf -> autoenv f prefix k = repl DOT USC (merge_prefix prefix k).
 Proof.
-  intros E. unfold flagkey in E. simpl in E.
-  unfold flagkey_of_short in E. apply app_inv_head in E. apply app_inv_head in E.
-  assert (R : repl DOT USC (short_of ev (w_prefix w)) = repl DOT USC k).
-  { rewrite <- (repl_repl (short_of ev (w_prefix w))), E. apply repl_repl. }
-  unfold cleanse, autoenv, merge_prefix. destruct (w_prefix w) as [|c p] eqn:EP; simpl v_empty_sep; cbv iota.
+  intros HK. unfold autoenv, replace_pairs, repl. rewrite HK. apply map_ext. intros c.
+  unfold apply_pairs. simpl. destruct (c =? DOT); reflexivity.
+Qed.
+Lemma flagkey_of_short_expected f sh : kf f = expected_kf ->
+  flagkey_of_short f sh = expected_flagprefix ++ [DOT] ++ repl USC DOT sh.
+Proof. intros HK. unfold flagkey_of_short, flagprefix, repl1. rewrite HK. reflexivity. Qed.
+Lemma cleanse_expected f prefix sh : kf f = expected_kf ->
+  cleanse f prefix sh = match prefix with [] => upper (repl DOT USC sh) | _ => upper (repl DOT USC (prefix ++ [USC] ++ sh)) end.
+Proof. intros HK. unfold cleanse, repl1. rewrite HK. reflexivity. Qed.
+
+(* ---------- BindFlagToEnv's variable = AutomaticEnv's variable ---------- *)
+(* needs: the spelling facts (kf) as expected, and linkFlagKeysToStructureKeys NOT stripping the prefix from structure keys *)
+Lemma bound_env_is_auto_env_l f w k ev :
+  kf f = expected_kf -> l_link_strips_prefix (lf f) = false ->
+  flagkey_of_short f (short_of f ev (w_prefix w)) = flagkey f (w_prefix w) k ->
+  cleanse f (w_prefix w) (short_of f ev (w_prefix w)) = autoenv f (w_prefix w) k.
+Proof.
+  intros HK HS E. unfold flagkey in E. rewrite HS in E.
+  rewrite !(flagkey_of_short_expected f _ HK) in E. apply app_inv_head in E. apply app_inv_head in E.
+  assert (R : repl DOT USC (short_of f ev (w_prefix w)) = repl DOT USC k).
+  { rewrite <- (repl_repl (short_of f ev (w_prefix w))), E. apply repl_repl. }
+  rewrite (cleanse_expected f _ _ HK), (autoenv_expected f _ _ HK). unfold merge_prefix.
+  destruct (w_prefix w) as [|c p] eqn:EP.
   - rewrite <- upper_repl_comm. f_equal. exact R.
   - rewrite <- upper_repl_comm. f_equal. rewrite !repl_app. f_equal. f_equal. exact R.
 Qed.
-
-(* before the repair the two names differ as soon as the key starts with the prefix: see Props.prefix_strip_refuted *)
 
 (* ---------- reported names = honoured names ---------- *)
 Definition is_nil (s : str) : bool := match s with [] => true | _ => false end.
@@ -117,10 +130,10 @@ Lemma tags_okb_node m fs :
   tags_okb (Node m fs) = forallb (fun f => match f with (_, tag, c) => negb (is_nil tag) && nodot tag && tags_okb c end) fs.
 Proof. simpl. induction fs as [|[[g tag] c] r IH]; simpl; auto. now rewrite IH. Qed.
 
-Lemma flat_upper s : forall k, In k (flat s) -> upper k = k.
+Lemma flat_upper f s : nf f = expected_nf -> forall k, In k (flat f s) -> upper k = k.
 Proof.
-  induction s as [t d r|m fs IH] using schema_ind'; intros k HI; [destruct HI|].
-  rewrite flat_node in HI. apply in_flat_map in HI. destruct HI as [[[g tag] c] [Hf Hk]].
+  intros HN. induction s as [t d r|m fs IH] using schema_ind'; intros k HI; [destruct HI|].
+  rewrite (flat_node f _ _ HN) in HI. apply in_flat_map in HI. destruct HI as [[[g tag] c] [Hf Hk]].
   destruct c; simpl in Hk.
   - destruct Hk as [<-|[]]. apply upper_idem.
   - apply in_map_iff in Hk. destruct Hk as [k' [<- _]]. apply upper_idem.
@@ -141,14 +154,14 @@ Qed.
 Lemma sub_nonnil pre tag : tag <> [] -> sub pre tag <> [].
 Proof. unfold sub. destruct pre; [|discriminate]. destruct tag; [congruence|discriminate]. Qed.
 
-Lemma names_agree_gen s : forall pre, tags_okb s = true ->
+Lemma names_agree_gen f s : nf f = expected_nf -> forall pre, tags_okb s = true ->
   match s with
   | Leaf _ _ _ => True
-  | Node _ _ => map (fun l => G (fst l)) (leaves pre s) = map (wrap pre) (flat s)
+  | Node _ _ => map (fun l => G (fst l)) (leaves pre s) = map (wrap pre) (flat f s)
   end.
 Proof.
-  induction s as [t d r|m fs IH] using schema_ind'; intros pre OK; [exact I|].
-  rewrite leaves_node, flat_node. rewrite tags_okb_node in OK.
+  intros HN. induction s as [t d r|m fs IH] using schema_ind'; intros pre OK; [exact I|].
+  rewrite leaves_node, (flat_node f _ _ HN). rewrite tags_okb_node in OK.
   induction fs as [|[[g tag] c] rest IHr]; [reflexivity|].
   simpl in OK. apply andb_prop in OK. destruct OK as [OK1 OK2].
   apply andb_prop in OK1. destruct OK1 as [OK1 OKc]. apply andb_prop in OK1. destruct OK1 as [Hnn Hnd].
@@ -163,19 +176,23 @@ Proof.
       unfold wrap at 1. destruct (sub pre tag) as [|x y] eqn:ES; [congruence|]. rewrite <- ES.
       rewrite (G_sub pre tag Ht Hnd).
       replace (upper (tag ++ USC :: k)) with (upper tag ++ USC :: k).
-      2:{ rewrite upper_app. change (upper (USC :: k)) with (USC :: upper k). now rewrite (flat_upper _ k Hk). }
+      2:{ rewrite upper_app. change (upper (USC :: k)) with (USC :: upper k). now rewrite (flat_upper f _ HN k Hk). }
       unfold wrap. destruct pre; simpl; rewrite <- ?app_assoc; reflexivity.
   - apply IHr; auto.
 Qed.
 
-Lemma env_names_agree_l prefix m fs :
+(* needs: flattenDefaultsMap / DetermineConfigurationEnvironmentVariables facts (nf) and the spelling facts (kf: the key
+   replacer of setEnvOptions) as expected *)
+Lemma env_names_agree_l f prefix m fs :
+  kf f = expected_kf -> nf f = expected_nf ->
   nodot prefix = true -> tags_ok (Node m fs) ->
-  reported fixed prefix (Node m fs) = honoured prefix (Node m fs).
+  reported f prefix (Node m fs) = honoured f prefix (Node m fs).
 Proof.
-  intros Hd OK. unfold reported, honoured.
-  pose proof (names_agree_gen (Node m fs) [] OK) as H. simpl wrap in H.
-  assert (E : map (wrap []) (flat (Node m fs)) = flat (Node m fs)) by (unfold wrap; apply map_id).
+  intros HK HN Hd OK. unfold reported, honoured.
+  pose proof (names_agree_gen f (Node m fs) HN [] OK) as H. simpl wrap in H.
+  assert (E : map (wrap []) (flat f (Node m fs)) = flat f (Node m fs)) by (unfold wrap; apply map_id).
   rewrite E in H. rewrite <- H. rewrite map_map. apply map_ext. intros l.
-  unfold autoenv, merge_prefix, G. destruct prefix as [|c p]; [reflexivity|].
+  rewrite (autoenv_expected f _ _ HK). rewrite HN. simpl n_det_empty_prefix_bare. simpl n_det_prefix_upper. simpl n_det_sep. cbv iota.
+  unfold merge_prefix, G. destruct prefix as [|c p]; [reflexivity|].
   rewrite !upper_app, !repl_app. f_equal. symmetry. apply nodot_repl. now rewrite nodot_upper.
 Qed.
